@@ -866,6 +866,7 @@ spif_dlinked_list_remove(spif_dlinked_list_t self, spif_obj_t item)
     spif_dlinked_list_item_t current, tmp;
 
     ASSERT_RVAL(!SPIF_LIST_ISNULL(self), (spif_obj_t) NULL);
+    REQUIRE_RVAL(!SPIF_OBJ_ISNULL(item), (spif_obj_t) NULL);
     if (SPIF_DLINKED_LIST_ITEM_ISNULL(self->head)) {
         return (spif_obj_t) NULL;
     }
